@@ -14,7 +14,7 @@ meta = {
    'how': 'tools/seed_confirm.sh: fresh scratch worktree of /repo HEAD under /tmp; Release build; demo.sh without the change; git apply patch.diff; rebuild; pinned 42 SvtAv1ApiTests; demo.sh with the change; then git -C /repo apply, tools/runall.py (all checks), git -C /repo checkout -- .',
    'demo_without_change_exit': 0, 'pinned_suite_with_change': 'all 42 pass', 'demo_with_change_exit': 'non-zero',
    'date': datetime.date.today().isoformat()},
- 'checks_reporting_violation': caught,
+ 'checks_reporting_violation_when_first_tried': caught,
  'checks_analysis_broken': broken,
  'violation_lines': viol[:8],
 }
